@@ -598,3 +598,13 @@ Definition C07_rejected (rs : list crule) (panicked : bool) : bool * bool * N :=
   let kc := cond_class rs in
   if panicked && (kc =? K_GLOBAL_REFS) then (true, false, K_GLOBAL_REFS)
   else (true, false, 0).
+
+(* the same file under the two compiler profiles of boreal (the profile is a user option): the case is
+   as bad as the worse of the two; an unclassified disagreement wins over a classified one *)
+Definition triple_ok (t : bool * bool * N) : bool := fst (fst t) && snd (fst t).
+Definition C07_pair (a b : bool * bool * N) : bool * bool * N :=
+  if triple_ok a then b
+  else if triple_ok b then a
+  else if snd a =? 0 then a
+  else if snd b =? 0 then b
+  else a.
